@@ -499,6 +499,10 @@ func (p *exprParser) primary() Expr {
 	case "str":
 		return &EStr{t.text}
 	case "id":
+		if t.text == "forall" || t.text == "exists" {
+			p.p--
+			return p.quant()
+		}
 		if t.text == "true" {
 			return &EBool{true}
 		}
